@@ -199,6 +199,21 @@ class Driver:
         return exit_code
 
     # ------------------------------------------------------------------
+    def digests(self, n: int) -> int:
+        """Determinism self-test support: print one line per scenario index with
+        the digest of everything observable about its execution."""
+        chk = self.check
+        if hasattr(chk, 'prepare'):
+            chk.prepare(self.tier)
+        with self.pool() as ex:
+            futs = [ex.submit(_gen_and_run, (self.seed, self.tier, i, self.wall_limit)) for i in range(n)]
+            for fu in futs:
+                index, sc, out = fu.result()
+                core = {k: out.get(k) for k in ('status', 'vclass', 'signature', 'trace_digest', 'distinct_key', 'faults', 'probes', 'sim_time', 'steps')}
+                print(json.dumps({'index': index, 'scenario': prng.short(sc), 'outcome': prng.short(core), 'status': out['status']}))
+        return 0
+
+    # ------------------------------------------------------------------
     def minimise_and_record(self, ex: cf.ProcessPoolExecutor, index: int, sc: T.Dict[str, T.Any],
                             out: T.Dict[str, T.Any]) -> T.Dict[str, T.Any]:
         chk = self.check
@@ -245,7 +260,7 @@ class Driver:
             'scenario': best, 'original_scenario_digest': prng.short(sc),
             'trace': best_out.get('trace'), 'shrink_runs': used,
         }
-        d = os.path.join(E.VERIF_DIR, 'replays', chk.id)
+        d = os.path.join(os.environ.get('VERIF_REPLAY_DIR') or os.path.join(E.VERIF_DIR, 'replays'), chk.id)
         os.makedirs(d, exist_ok=True)
         path = os.path.join(d, prng.short(best) + '.json')
         with open(path, 'w') as f:
@@ -356,7 +371,7 @@ class Aggregate:
             'violations': nviol,
         }
         ev['coverage'].update(self.extra)
-        d = os.path.join(E.VERIF_DIR, 'evidence')
+        d = os.environ.get('VERIF_EVIDENCE_DIR') or os.path.join(E.VERIF_DIR, 'evidence')
         os.makedirs(d, exist_ok=True)
         tmp = os.path.join(d, f'.{chk.id}.json.tmp')
         with open(tmp, 'w') as f:
